@@ -1,4 +1,4 @@
-import Lemmas.ExtractFresh
+import Lemmas.ExtractOnly
 /-! # C19 — archive extraction reproduces the archive inside the destination only
 
 All theorems are about the definitions the model driver `drv_c19` executes (`Ex.tarExtract`, `Ex.zipExtract`,
@@ -10,7 +10,18 @@ link is an opaque leaf.  `ensureNoSymlinks_spec`, `extract_wf` and `guard_makes_
 reading at every call the extractors make: the extractors call the guard first, after the guard no component below
 the root is a link, and then kernel-style resolution (`Ex.resolve`, which follows links) returns the path itself.
 Quantification: every root whose text is a clean absolute path (`GoodPath`, what `filepath.Abs` returns), every
-initial file system, every mask, every list of entries (any names, kinds, modes, link targets, payload faults). -/
+initial file system, every mask, every list of entries (any names, kinds, modes, link targets, payload faults).
+
+The three clauses of the property:
+* *creates exactly what the archive records* — `extract_reproduces` (tar), `extract_reproduces_zip` (zip): well-formed
+  archive, empty or missing destination ⇒ no error and the tree below the destination is exactly the archive's tree;
+  `extract_reproduces_distinct(_zip)`, `extract_reproduces_partial`, `entry_reproduced`: weaker conclusions for more
+  archives (any order; any archive under a semantic condition; one entry); `extract_nothing_else`: for every
+  archive, nothing but entry paths and their ancestors is ever added;
+* *returns an error if an entry cannot be written in full* — `payload_error_one`, `payload_error_propagates`,
+  `first_error_stops`, `extract_error_iff`, `tarOne_error_iff`, `zipOne_error_iff`, `syscall_error_iff`;
+* *nothing outside, never through a link* — `lexical_check_spec`, `extract_contained`, `extract_contained_inodes`,
+  `extract_no_outside_link`, `extract_monotone`, `extract_wf`, `ensureNoSymlinks_spec`, `guard_makes_lexical`. -/
 namespace C19
 open Ex
 
@@ -175,8 +186,9 @@ theorem extract_reproduces_distinct (root : P) (mask : Nat) (es : List Entry) (f
 
 /-- *reproduction, exactly* (tar — first clause of the property).  Hypotheses, all syntactic (about the archive and
     the text of the root) except the state of the destination:
-    * the destination is an existing directory with nothing below it, in a tree where every node's parent is a
-      directory (`WF`; so the ancestors of the destination are real directories) and every file has an inode;
+    * the destination is an existing directory or does not exist yet, nothing exists below it, every ancestor of it
+      that exists is a real directory (`hanc`), in a tree where every node's parent is a directory (`WF`) and every
+      file has an inode;
     * `hentry`: every entry is a regular file, directory, symbolic link or hard link, its name cleans to a proper
       descendant of the root, its payload is complete, a symbolic link's target is not empty;
     * `horder`, for an earlier entry `a` and a later entry `b`: `b`'s path is not `a`'s path nor an ancestor of it (no
@@ -190,9 +202,12 @@ theorem extract_reproduces_distinct (root : P) (mask : Nat) (es : List Entry) (f
     that is not itself an entry is a directory with the mode `MkdirAll` gave it when the first entry beneath it was
     extracted (`0o755 & mask`, or that entry's `perm mode & mask` if it is a directory entry: `os.MkdirAll(path, mode)`
     uses one mode for the whole chain); different regular-file entries are different inodes (the only sharing is the
-    recorded one); the destination directory itself is unchanged. -/
+    recorded one); the destination is a directory afterwards (unless the archive is empty), unchanged if it existed
+    (if it did not, `MkdirAll` created it — and its missing ancestors, the only effect outside, see
+    `extract_contained` — with the mode of the first call). -/
 theorem extract_reproduces (root : P) (hr : GoodPath root) (mask : Nat) (es : List Entry) (fs : FS)
-    (hw : WF fs) (hio : InoOK fs) (hdst : ∃ m, fs.get root = some (.dir m))
+    (hw : WF fs) (hio : InoOK fs) (hdst : fs.get root = none ∨ ∃ m, fs.get root = some (.dir m))
+    (hanc : ∀ j, 1 ≤ j → j < root.length → fs.get (root.take j) = none ∨ ∃ m, fs.get (root.take j) = some (.dir m))
     (hempty : ∀ c t, fs.get (root ++ c :: t) = none)
     (hentry : ∀ e ∈ es, (∃ c t, cleanJoin root e.name = root ++ c :: t) ∧
       ((e.kind = .reg ∨ e.kind = .dir ∨ e.kind = .symlink ∨ e.kind = .link) ∧ e.short = false ∧
@@ -221,19 +236,21 @@ theorem extract_reproduces (root : P) (hr : GoodPath root) (mask : Nat) (es : Li
     es.Pairwise (fun a b => a.kind = .reg → b.kind = .reg →
       (tarExtract fs root mask es).1.get (cleanJoin root a.name) ≠
         (tarExtract fs root mask es).1.get (cleanJoin root b.name)) ∧
-    (tarExtract fs root mask es).1.get root = fs.get root := by
-  obtain ⟨hok, hex⟩ := tar_exact root hr mask es fs ⟨hw, hio, hdst, fun q ⟨c, t, e⟩ => e ▸ hempty c t⟩
+    (es ≠ [] → root ≠ [] → ∃ m, (tarExtract fs root mask es).1.get root = some (.dir m)) ∧
+    (∀ n, fs.get root = some n → (tarExtract fs root mask es).1.get root = some n) := by
+  obtain ⟨hok, hex⟩ := tar_exact root hr mask es fs ⟨hw, hio, hdst, hanc, fun q ⟨c, t, e⟩ => e ▸ hempty c t⟩
     ⟨hentry, horder, hlinks⟩
-  obtain ⟨m0, hm0⟩ := hdst
   exact reproduced_spelled root mask es _ hok hex
-    (by rw [hm0]; exact (extract_monotone root hr mask es fs root _ hm0).1)
+    (fun n hn => (extract_monotone root hr mask es fs root n hn).1)
 
 /-- *reproduction, exactly* (zip).  The entries carry the kind zip `ExtractWithMask` gives them (`zipKind`: symbolic
     link if the mode has the symlink bit — the payload is the target —, else directory if the mode has the directory
     bit or the name ends in a slash, else regular file; `zipKind_total` says these are the only three).  Same
-    hypotheses and conclusion as `extract_reproduces`, without hard links (the zip extractor has none). -/
+    hypotheses and conclusion as `extract_reproduces`, without hard links (the zip extractor has none; the hard-link
+    clause of the shared conclusion is vacuous here). -/
 theorem extract_reproduces_zip (root : P) (hr : GoodPath root) (mask : Nat) (es : List Entry) (fs : FS)
-    (hw : WF fs) (hio : InoOK fs) (hdst : ∃ m, fs.get root = some (.dir m))
+    (hw : WF fs) (hio : InoOK fs) (hdst : fs.get root = none ∨ ∃ m, fs.get root = some (.dir m))
+    (hanc : ∀ j, 1 ≤ j → j < root.length → fs.get (root.take j) = none ∨ ∃ m, fs.get (root.take j) = some (.dir m))
     (hempty : ∀ c t, fs.get (root ++ c :: t) = none)
     (hentry : ∀ e ∈ es, (∃ c t, cleanJoin root e.name = root ++ c :: t) ∧
       ((e.kind = .reg ∨ e.kind = .dir ∨ e.kind = .symlink) ∧ e.short = false ∧ (e.kind = .symlink → e.link ≠ [])))
@@ -259,17 +276,47 @@ theorem extract_reproduces_zip (root : P) (hr : GoodPath root) (mask : Nat) (es 
     es.Pairwise (fun a b => a.kind = .reg → b.kind = .reg →
       (zipExtract fs root mask es).1.get (cleanJoin root a.name) ≠
         (zipExtract fs root mask es).1.get (cleanJoin root b.name)) ∧
-    (zipExtract fs root mask es).1.get root = fs.get root := by
-  obtain ⟨hok, hex⟩ := zip_exact root hr mask es fs ⟨hw, hio, hdst, fun q ⟨c, t, e⟩ => e ▸ hempty c t⟩
+    (es ≠ [] → root ≠ [] → ∃ m, (zipExtract fs root mask es).1.get root = some (.dir m)) ∧
+    (∀ n, fs.get root = some n → (zipExtract fs root mask es).1.get root = some n) := by
+  obtain ⟨hok, hex⟩ := zip_exact root hr mask es fs ⟨hw, hio, hdst, hanc, fun q ⟨c, t, e⟩ => e ▸ hempty c t⟩
     hentry horder
-  obtain ⟨m0, hm0⟩ := hdst
   exact reproduced_spelled root mask es _ hok hex
-    (by rw [hm0]; exact (extract_monotone root hr mask es fs root _ hm0).2)
+    (fun n hn => (extract_monotone root hr mask es fs root n hn).2)
+
+/-- *nothing else appears* (tar and zip, EVERY archive — any kinds, names, order, duplicates, faults; whether the run
+    fails or not): every node that exists after the extraction existed before with the same type, mode and target (for
+    a file: the same inode — its content may have been overwritten by an entry of that name), or is at the cleaned path
+    of an entry or at an ancestor of one.  So in a destination that was empty or missing,
+    everything found strictly below it afterwards is an entry path or an ancestor of one. -/
+theorem extract_nothing_else (root : P) (mask : Nat) (es : List Entry) (fs : FS) (q : P) (n : Nd) :
+    ((tarExtract fs root mask es).1.get q = some n → fs.get q = some n ∨ ∃ e ∈ es, q <+: cleanJoin root e.name) ∧
+    ((zipExtract fs root mask es).1.get q = some n → fs.get q = some n ∨ ∃ e ∈ es, q <+: cleanJoin root e.name) :=
+  ⟨extractWith_nodes root _ (fun fs e q n h => tarOne_nodes fs root mask e _ rfl q n h) es fs q n,
+   extractWith_nodes root _ (fun fs e q n h => zipOne_nodes fs root mask e _ rfl q n h) es fs q n⟩
 
 /-- the classification of zip entries yields only the three kinds `extract_reproduces_zip` speaks about -/
 theorem zipKind_total (symBit dirBit : Bool) (name : List Nat) :
     zipKind symBit dirBit name = .reg ∨ zipKind symBit dirBit name = .dir ∨ zipKind symBit dirBit name = .symlink :=
   zipKind_cases symBit dirBit name
+
+/-- *the zip loop is the tar loop on error-free runs*: on entries of the three kinds the zip reader yields, a zip
+    extraction that returns no error is step for step the tar extraction of the same entries (the loops differ only
+    in that zip reads a symbolic link's payload first and fails at once if it cannot) -/
+theorem zip_run_is_tar_run (root : P) (mask : Nat) (es : List Entry) (fs : FS)
+    (hk : ∀ e ∈ es, e.kind = .reg ∨ e.kind = .dir ∨ e.kind = .symlink)
+    (hok : (zipExtract fs root mask es).2 = true) : zipExtract fs root mask es = tarExtract fs root mask es :=
+  zipExtract_eq_tarExtract root mask es fs hk hok
+
+/-- *reproduction, any order* (zip): as `extract_reproduces_distinct` -/
+theorem extract_reproduces_distinct_zip (root : P) (mask : Nat) (es : List Entry) (fs : FS) (hr : GoodPath root)
+    (hroot : root ≠ []) (hio : InoOK fs) (hempty : ∀ q, root <+: q → q ≠ root → fs.get q = none)
+    (hk : ∀ e ∈ es, e.kind = .reg ∨ e.kind = .dir ∨ e.kind = .symlink)
+    (hdist : (es.map (fun e => cleanJoin root e.name)).Pairwise (· ≠ ·))
+    (hok : (zipExtract fs root mask es).2 = true) :
+    ∀ e ∈ es, Final root mask e (zipExtract fs root mask es).1 := by
+  have heq := zipExtract_eq_tarExtract root mask es fs hk hok
+  rw [heq] at hok ⊢
+  exact extract_reproduces_distinct root mask es fs hr hroot hio hempty hdist hok
 
 /-- *when an error is returned* (both loops): the run returns an error iff some entry's iteration fails on the tree
     its predecessors left — the entries before it were all extracted, none after it is looked at -/
@@ -279,6 +326,34 @@ theorem extract_error_iff (root : P) (mask : Nat) (es : List Entry) (fs : FS) :
     ((zipExtract fs root mask es).2 = false ↔ ∃ es1 e es2 fs1, es = es1 ++ e :: es2 ∧
       zipExtract fs root mask es1 = (fs1, true) ∧ (zipOne fs1 root mask e).2 = false) :=
   ⟨extractWith_ok_iff _ es fs, extractWith_ok_iff _ es fs⟩
+
+/-- *which entries fail* (tar): an iteration fails iff the header is unreadable, or the cleaned path is not strictly
+    inside the root (at the root is allowed for a directory entry), or the guard meets a symbolic link, or
+    `MkdirAll` fails, or — per kind — the one primitive call fails, or a regular file's payload cannot be copied in
+    full (`TarFails`, every disjunct is a check or a call of the Go loop body) -/
+theorem tarOne_error_iff (fs : FS) (root : P) (mask : Nat) (e : Entry) :
+    (tarOne fs root mask e).2 = false ↔ TarFails fs root mask e :=
+  tarOne_fails_iff fs root mask e
+
+/-- *which entries fail* (zip): as for tar, without hard links and unreadable headers; a symbolic-link entry whose
+    payload (the target) cannot be read fails before anything is created; every other non-directory entry is a file -/
+theorem zipOne_error_iff (fs : FS) (root : P) (mask : Nat) (e : Entry) :
+    (zipOne fs root mask e).2 = false ↔ ZipFails fs root mask e :=
+  zipOne_fails_iff fs root mask e
+
+/-- *when the primitive calls fail on the modelled file system*: `MkdirAll(p)` iff some non-empty prefix of `p` exists
+    and is not a directory; `OpenFile(p, O_CREATE|O_WRONLY|O_TRUNC)` iff `p` is a directory or a symbolic link, or is
+    absent and its parent is not a directory; `Symlink(t, p)` iff `t` is empty, `p` exists or the parent is not a
+    directory; `Link(tg, p)` iff `tg` is not a file, `p` exists or the parent is not a directory.  (Permission bits
+    never make a call fail in the model — the correspondence run has `CAP_DAC_OVERRIDE`.) -/
+theorem syscall_error_iff (fs : FS) (p tg : P) (mode : Nat) (data t : List Nat) :
+    (mkdirAll fs p mode = none ↔ ∃ j, 1 ≤ j ∧ j ≤ p.length ∧
+      ((∃ ino, fs.get (p.take j) = some (.file ino)) ∨ ∃ t, fs.get (p.take j) = some (.symlink t))) ∧
+    (writeFile fs p mode data = none ↔ (∃ m, fs.get p = some (.dir m)) ∨ (∃ t, fs.get p = some (.symlink t)) ∨
+      (fs.get p = none ∧ parentIsDir fs p = false)) ∧
+    (symlinkAt fs t p = none ↔ t = [] ∨ fs.get p ≠ none ∨ parentIsDir fs p = false) ∧
+    (linkAt fs tg p = none ↔ (∀ ino, fs.get tg ≠ some (.file ino)) ∨ fs.get p ≠ none ∨ parentIsDir fs p = false) :=
+  ⟨mkdirAll_none_iff fs p mode, writeFile_none_iff fs p mode data, symlinkAt_none_iff fs t p, linkAt_none_iff fs tg p⟩
 
 /-! ### the hypotheses are satisfiable, the theorems are not vacuous -/
 
@@ -326,5 +401,91 @@ example : FreshRun demoRoot 0o755 demoFs
     [{ kind := .reg, name := [97], data := [1, 2] }, { kind := .link, name := [104], link := [97] }] := by
   simp only [FreshRun]
   decide
+
+/-- `a`, `h => a` (hard link), `s/` (0700), `s/l -> ../a`, `s/t/u` (its parent `s/t` is implied), `./x//y/../z` -/
+def demoArchive : List Entry :=
+  [{ kind := .reg, name := [97], data := [1, 2] },
+   { kind := .link, name := [104], link := [97] },
+   { kind := .dir, name := [115, 47], mode := 0o700 },
+   { kind := .symlink, name := [115, 47, 108], link := [46, 46, 47, 97] },
+   { kind := .reg, name := [115, 47, 116, 47, 117], mode := 0o600, data := [3] },
+   { kind := .reg, name := [46, 47, 120, 47, 47, 121, 47, 46, 46, 47, 122], data := [] }]
+
+/-- the same without the hard link, as the zip reader yields it -/
+def demoZip : List Entry :=
+  [{ kind := zipKind false false [97], name := [97], data := [1, 2] },
+   { kind := zipKind false false [115, 47], name := [115, 47], mode := 0o700 },
+   { kind := zipKind true false [115, 47, 108], name := [115, 47, 108], link := [46, 46, 47, 97] },
+   { kind := zipKind false true [100], name := [100], mode := 0o555 },
+   { kind := zipKind false false [115, 47, 116, 47, 117], name := [115, 47, 116, 47, 117], mode := 0o600, data := [3] }]
+
+example : ∀ c t, demoFs.get (demoRoot ++ c :: t) = none := by
+  intro c t; simp [FS.get, demoFs, demoRoot]
+
+/-- all hypotheses of `extract_reproduces` hold together for `demoArchive` in `demoFs` -/
+example : ∃ m, (tarExtract demoFs demoRoot 0o750 demoArchive).1.get (demoRoot ++ [[115], [116]]) = some (.dir m) := by
+  have hw : WF demoFs := by
+    intro p hp hl
+    unfold FS.get demoFs at hp
+    simp only [List.find?_cons, List.find?_nil] at hp
+    split at hp
+    · rename_i h; simp at h; rw [h] at hl; simp at hl
+    · split at hp
+      · rename_i h; simp at h; rw [← h] at hl; simp at hl
+      · simp at hp
+  have hio : InoOK demoFs := by
+    intro p ino h
+    unfold FS.get demoFs at h
+    simp only [List.find?_cons, List.find?_nil] at h
+    split at h
+    · simp at h
+    · split at h <;> simp at h
+  have hr : GoodPath demoRoot := by
+    intro c hc; simp [demoRoot] at hc; subst hc; exact ⟨by decide, by decide⟩
+  have h := extract_reproduces demoRoot hr 0o750 demoArchive demoFs hw hio (Or.inr ⟨0o755, by decide⟩)
+    (by intro j h1 h2; simp [demoRoot] at h2; omega)
+    (by intro c t; simp [FS.get, demoFs, demoRoot])
+    (show ∀ e ∈ demoArchive, Below demoRoot (e.path demoRoot) ∧ TarEntryOK e by decide)
+    (show demoArchive.Pairwise (Compat demoRoot) by decide)
+    (linksOK_of_from _ _ (by decide))
+  exact ⟨_, h.2.2.2.2.2.2.1 [demoArchive[0], demoArchive[1], demoArchive[2], demoArchive[3]] demoArchive[4]
+    [demoArchive[5]] rfl [115] [[116]] (by decide) (by decide) (by decide)⟩
+
+/-- … and for a destination that does not exist yet: it is created, with the mode of the first `MkdirAll` -/
+example : (tarExtract { nodes := [([], .dir 0o755)] } demoRoot 0o750 demoArchive).1.get demoRoot =
+    some (.dir (0o755 &&& 0o750)) := by decide
+example : ∃ m, (tarExtract { nodes := [([], .dir 0o755)] } demoRoot 0o750 demoArchive).1.get demoRoot =
+    some (.dir m) := by
+  have hr : GoodPath demoRoot := by
+    intro c hc; simp [demoRoot] at hc; subst hc; exact ⟨by decide, by decide⟩
+  have hget : ∀ p : P, p ≠ [] → ({ nodes := [([], .dir 0o755)] } : FS).get p = none := by
+    intro p hp
+    simp only [FS.get, List.find?_cons, List.find?_nil]
+    have : (([] : P) == p) = false := by cases p <;> simp at hp ⊢
+    simp [this]
+  have h := extract_reproduces demoRoot hr 0o750 demoArchive { nodes := [([], .dir 0o755)] }
+    (by intro p hp hl
+        rw [hget p (by intro e; rw [e] at hl; simp at hl)] at hp; cases hp)
+    (by intro p ino hp
+        by_cases e : p = []
+        · subst e; simp [FS.get] at hp
+        · rw [hget p e] at hp; cases hp)
+    (Or.inl (hget _ (by decide)))
+    (by intro j h1 h2; simp [demoRoot] at h2; omega)
+    (by intro c t; exact hget _ (by simp))
+    (show ∀ e ∈ demoArchive, Below demoRoot (e.path demoRoot) ∧ TarEntryOK e by decide)
+    (show demoArchive.Pairwise (Compat demoRoot) by decide)
+    (linksOK_of_from _ _ (by decide))
+  exact h.2.2.2.2.2.2.2.2.1 (by simp [demoArchive]) (by decide)
+
+/-- … and those of `extract_reproduces_zip` for `demoZip` -/
+example : ∀ e ∈ demoZip, Below demoRoot (e.path demoRoot) ∧ ZipEntryOK e := by decide
+example : demoZip.Pairwise (Compat demoRoot) := by decide
+
+/-- the conclusions on the two demo archives, computed: the trees are what the theorems say -/
+example : ((tarExtract demoFs demoRoot 0o750 demoArchive).1.nodes.filter (fun x => x.1.length > 1)).map (·.1) =
+    [[[100], [97]], [[100], [104]], [[100], [115]], [[100], [115], [108]], [[100], [115], [116]],
+     [[100], [115], [116], [117]], [[100], [120]], [[100], [120], [122]]] := by decide
+example : (zipExtract demoFs demoRoot 0o750 demoZip).2 = true := by decide
 
 end C19
